@@ -28,6 +28,11 @@ def param_vectors(np_, tier, rnd):
     # angles beyond one and two turns: half-angle gates are only 4*pi periodic
     structured += [[7.0 + 0.9 * i for i in range(np_)], [-(9.5 + 1.3 * i) for i in range(np_)],
                    [13.0 + 2.1 * i for i in range(np_)]]
+    # one parameter at a special value (where a decomposition might take a shortcut), the others generic
+    for i in range(np_):
+        for special in (0.0, math.pi, -math.pi / 2, 2 * math.pi):
+            if np_ > 1:
+                structured.append([special if j == i else 0.3 + 0.41 * j for j in range(np_)])
     n = 4 if tier == "quick" else 120
     return structured + [[rnd.uniform(-5 * math.pi, 5 * math.pi) for _ in range(np_)] for _ in range(n)]
 
@@ -66,6 +71,62 @@ def numeric_sweep(names, tier, seed, only=None):
     return evals, fails, unspecified, samples
 
 
+PARAM_GATES = ["rx", "crz", "u3", "cu", "cp", "rzz", "u2", "cry", "phaseshift"]
+
+
+def param_source_sweep(names, rnd):
+    """the decomposition is applied to the values the parameter expressions denote, whatever supplies them: variables of
+    every scalar type, constants, elements of float / int arrays (1-D, 2-D), loop variables, subroutine results,
+    built-in constants.  Returns (evaluations, failures[(name, values, source, detail)])."""
+    import numpy as np
+    import pyqasm
+    import gatenum
+    gs = gatenum.gates_spec
+    fails, evals = [], 0
+    for n in PARAM_GATES:
+        if n not in names or n not in gs.SPECS:
+            continue
+        np_, k = gs.SPECS[n][0], gs.SPECS[n][1]
+        vals = [round(rnd.uniform(-3, 3), 3) + 0.0371 for _ in range(np_)]
+        ivals = [rnd.choice([2, -3, 1, 5, -1]) for _ in range(np_)]
+        fl = lambda v: repr(float(v))
+        sources = []
+        sources.append(("float variables", "".join("float[64] a%d = %s;\n" % (i, fl(v)) for i, v in enumerate(vals)), ["a%d" % i for i in range(np_)], vals))
+        sources.append(("const floats", "".join("const float[64] a%d = %s;\n" % (i, fl(v)) for i, v in enumerate(vals)), ["a%d" % i for i in range(np_)], vals))
+        sources.append(("float array elements", "array[float[64], %d] arr = {%s};\n" % (np_ + 1, ", ".join(fl(v) for v in vals + [0.5])),
+                        ["arr[%d]" % i for i in range(np_)], vals))
+        sources.append(("2-D float array elements", "array[float[64], 2, %d] mat = {{%s}, {%s}};\n" % (max(np_, 2), ", ".join(fl(0.25 + i) for i in range(max(np_, 2))),
+                                                                                                   ", ".join(fl(v) for v in (vals + [0.5])[:max(np_, 2)])),
+                        ["mat[1, %d]" % i for i in range(np_)], vals))
+        sources.append(("int variables", "".join("int[8] k%d = %d;\n" % (i, v) for i, v in enumerate(ivals)), ["k%d" % i for i in range(np_)], ivals))
+        sources.append(("int array elements", "array[int[8], %d] ia = {%s};\n" % (np_ + 1, ", ".join(str(v) for v in ivals + [7])),
+                        ["ia[%d]" % i for i in range(np_)], ivals))
+        sources.append(("uint variables", "".join("uint[4] u%d = %d;\n" % (i, abs(v)) for i, v in enumerate(ivals)), ["u%d" % i for i in range(np_)], [abs(v) for v in ivals]))
+        sources.append(("bool variable", "bool bt = true;\nbool bf = false;\n", ["bt" if i % 2 == 0 else "bf" for i in range(np_)], [1 if i % 2 == 0 else 0 for i in range(np_)]))
+        sources.append(("subroutine results", "def twice(float[64] x) -> float[64] { return x * 2; }\n", ["twice(%s)" % fl(v / 2) for v in vals], vals))
+        sources.append(("expressions over variables and pi", "float[64] a = %s;\nint[8] k = 3;\n" % fl(vals[0]),
+                        ["a * k - pi / %d" % (i + 2) for i in range(np_)], [vals[0] * 3 - math.pi / (i + 2) for i in range(np_)]))
+        qs = ", ".join("q[%d]" % i for i in range(k))
+        for what, prelude, ptexts, expect in sources:
+            bodies = ["%s(%s) %s;" % (n, ", ".join(ptexts), qs)]
+            if what == "float array elements":
+                bodies.append("for int j in [0:0] { %s(%s) %s; }" % (n, ", ".join("arr[j + %d]" % i for i in range(np_)), qs))
+            for body in bodies:
+                src = 'OPENQASM 3.0;\ninclude "stdgates.inc";\nqubit[%d] q;\n%s%s\n' % (k, prelude, body)
+                evals += 1
+                try:
+                    m = pyqasm.loads(src)
+                    m.unroll()
+                    U = gatenum.circuit_unitary(gatenum.flat_ops_from_module(m, {"q": 0}), k)
+                except Exception as e:
+                    fails.append((n, expect, src, "parameters from %s: exception %s: %s" % (what, type(e).__name__, str(e)[:200])))
+                    continue
+                V = np.array(gs.numeric(n, [float(v) for v in expect]))
+                if not gatenum.phase_equal(U, V):
+                    fails.append((n, expect, src, "parameters from %s: the emitted circuit is not the gate's unitary at the values the expressions denote" % what))
+    return evals, fails
+
+
 def failing_model_gates():
     """which names does the Coq decision procedure reject (diagnostic when the proof breaks)"""
     d = common.run_dir()
@@ -92,7 +153,20 @@ def run(tier, seed, replay):
 
     if replay:
         r = json.load(open(replay))
-        if str(r.get("detail", "")).startswith("one statement"):
+        if str(r.get("detail", "")).startswith("parameters from"):
+            import numpy as np
+            import pyqasm
+            gs = gatenum.gates_spec
+            k = gs.SPECS[r["gate"]][1]
+            try:
+                m = pyqasm.loads(r["source"])
+                m.unroll()
+                U = gatenum.circuit_unitary(gatenum.flat_ops_from_module(m, {"q": 0}), k)
+                ok, det = gatenum.phase_equal(U, np.array(gs.numeric(r["gate"], [float(v) for v in r["params"]]))), r["detail"]
+            except Exception as e:
+                ok, det = False, "exception %s" % e
+            src = r["source"]
+        elif str(r.get("detail", "")).startswith("one statement"):
             ok, src, det = gatenum.check_gate_broadcast(r["gate"], r["params"])
         else:
             ok, src, det = gatenum.check_gate_numeric(r["gate"], r["params"])
@@ -126,7 +200,9 @@ def run(tier, seed, replay):
     table_drift = sorted(set(runtime) ^ set(names))
     names = names + [n for n in runtime if n not in names]
     evals, fails, unspecified, samples = numeric_sweep(names, tier, seed)
-    new_fail = [f for f in fails if f[0] not in known_names]
+    evals2, fails2 = param_source_sweep(names, random.Random(seed + 5))
+    evals += evals2
+    new_fail = [f for f in fails if f[0] not in known_names] + fails2
     for n, vals, src, det in new_fail:
         chk.violation("gate_%s" % re.sub(r"\W", "_", n),
                       {"kind": "gate", "gate": n, "params": vals, "source": src, "detail": det,
